@@ -36,6 +36,7 @@ func runC07(c *core.Ctx) {
 	c07R3(c)
 	c06R4(c, "C07.R4")
 	c02R8(c, "C07.R5")
+	c06Limit(c, "C07.R6")
 }
 
 func allowConst(c *core.Ctx, name string) int64 {
